@@ -204,3 +204,7 @@ def run(ctx: Ctx):
     ctx.cov["traces_validated_against_impl"] += len(recs)
     ctx.sample({k: v for k, v in recs[0]["r"].items()})
     ctx.sample({k: v for k, v in recs[-1]["r"].items()})
+    # ---- code -> spec: recorded calls on larger coordinates, validated by TLC against Trace_Ops.tla
+    from ..optrace import run_optrace
+
+    run_optrace(ctx, ['area2', 'midpoint'])
